@@ -1,2 +1,312 @@
-/- C14 driver (stub until the model exists) -/
-def main : IO Unit := pure ()
+/- C14 driver (trace acceptor): receives the ops of a case, then the implementation's lines
+prefixed `T `, then `end`; replays the ops on the model and prints `ok` / `reject <reason>`
+per op.  The JSON parser is an oracle: for a frame the model delimits, the implementation's
+answer (`r=<n>` parsed / `r=-1` parse error, plus the callbacks it made) is accepted but must
+be a function of the frame text within the case, and texts written by the real encoder must
+parse.  Everything else (frame boundaries, return values, connection state, the Rpc event
+trace) is predicted by the model. -/
+import TboxModel.Util
+import TboxModel.C14.Model
+open Tbox.Util Tbox.C14
+
+inductive Kind where
+  | H (magic : UInt16)
+  | R
+  | P
+
+def Kind.dec : Kind → List Byte → Frame
+  | .H m => decodeHeader m
+  | .R => decodeRaw
+  | .P => decodePacket
+
+def Kind.isPacket : Kind → Bool
+  | .P => true
+  | _ => false
+
+structure Oracle where
+  seen  : List (List Byte × Bool × List String) := []
+  valid : List (List Byte) := []
+
+def Oracle.record (o : Oracle) (t : List Byte) (ok : Bool) (cbs : List String) : Except String Oracle :=
+  if !ok && o.valid.contains t then .error "a text written by the encoder (or the deep-array text) failed to parse"
+  else match o.seen.find? (fun e => e.1 == t) with
+    | some (_, ok', cbs') =>
+        if ok' == ok && cbs' == cbs then .ok o
+        else .error s!"same frame text decoded differently: before parsed={ok'} callbacks={cbs'} now parsed={ok} callbacks={cbs}"
+    | none => .ok { o with seen := (t, ok, cbs) :: o.seen }
+
+structure FState where
+  streams : List (Option (Kind × Conn)) := [none, none, none, none]
+  sent    : List (List Byte) := []
+  oracle  : Oracle := {}
+
+inductive CaseSt where
+  | fresh
+  | framing (f : FState)
+  | rpc (kind : Kind) (r : Rpc)
+
+def expectTok (ts : List String) (want : String) : Except String (List String) :=
+  match ts with
+  | t :: rest => if t = want then .ok rest else .error s!"expected {want} got {t}"
+  | [] => .error s!"expected {want} got <end-of-line>"
+
+def takeCbs (ts : List String) : List String × List String :=
+  ts.span (fun t => !(t.startsWith "r=") && t != "seg")
+
+def needTag (k : Kind) (buf : List Byte) : String :=
+  match k with
+  | .H _ => if buf.length < 6 then "hdr-need-header" else
+      (match buf with
+       | _ :: _ :: b2 :: b3 :: b4 :: b5 :: _ =>
+          if (be32dec b2 b3 b4 b5).toNat ≥ 0x7fffffff then "hdr-need-body-extreme-len" else "hdr-need-body"
+       | _ => "hdr-need-body")
+  | .R => if buf.length < 2 then "raw-short" else if findEndPos buf < 0 then "raw-unbalanced" else "raw-need"
+  | .P => "pkt-short"
+
+/-- the receive loop on one segment, consulting the implementation's tokens for the parse oracle -/
+partial def attempts (k : Kind) (buf : List Byte) (ts : List String) (o : Oracle) (tags : List String)
+    (carry : Bool) (nth : Nat) : Except String (Conn × List String × Oracle × List String) :=
+  match k.dec buf with
+  | .needMore => do
+      let ts ← expectTok ts "r=0"
+      pure (if k.isPacket then some [] else some buf, ts, o, needTag k buf :: tags)
+  | .err c => do
+      let ts ← expectTok ts s!"r={c}"
+      pure (none, ts, o, "hdr-magic-bad" :: tags)
+  | .throws => .error "model: an exception leaves onRecvData"
+  | .frame t n =>
+      match ts with
+      | [] => .error s!"expected r={n} or r=-1, got <end-of-line>"
+      | tok :: rest =>
+        let (cbs, rest') := takeCbs rest
+        let tags := (if carry && nth == 0 then ["resumed-frame"] else []) ++
+                    (if nth == 1 then ["multi-frame"] else []) ++ tags
+        if tok = s!"r={n}" then do
+          let o ← o.record t true cbs
+          let tags := (if cbs.isEmpty then "parse-ok-nocb" else "parse-ok-cb") :: tags
+          if k.isPacket then pure (some [], rest', o, tags)
+          else if 0 < n ∧ n ≤ buf.length then attempts k (buf.drop n) rest' o tags false (nth + 1)
+          else .error "model: stuck"
+        else if tok = "r=-1" then do
+          if !cbs.isEmpty then throw "callbacks although the parse failed"
+          let o ← o.record t false []
+          pure (if k.isPacket then some [] else none, rest', o, "parse-fail" :: tags)
+        else .error s!"frame of {n} bytes: expected r={n} or r=-1, got {tok}"
+
+def acceptSegs (k : Kind) (c : Conn) (segs : List (List Byte)) (ts : List String) (o : Oracle)
+    (tags : List String) : Except String (Conn × Oracle × List String) :=
+  match segs with
+  | [] => if ts.isEmpty then .ok (c, o, tags) else .error s!"unexpected extra output {ts}"
+  | seg :: segs =>
+    match c with
+    | none => if ts.isEmpty then .ok (none, o, tags) else .error s!"output after the connection was given up: {ts}"
+    | some buf => do
+      let ts ← expectTok ts "seg"
+      let (c', ts', o', tags') ← attempts k (buf ++ seg) ts o tags (!buf.isEmpty) 0
+      acceptSegs k c' segs ts' o' tags'
+
+def slot? (w : String) : Option Nat := do
+  let i ← w.toNat?
+  if i < 4 then some i else none
+
+def splitAt (bs : List Byte) (cuts : List Nat) (off : Nat := 0) : List (List Byte) :=
+  match cuts with
+  | [] => [bs]
+  | c :: cs => bs.take (c - off) :: splitAt (bs.drop (c - off)) cs c
+
+def parseCuts (w : String) (len : Nat) : Option (List Nat) :=
+  if w == "-" then some [] else do
+    let cs ← (w.splitOn ",").mapM (fun s => s.toNat?)
+    let rec okc : List Nat → Nat → Bool
+      | [], _ => true
+      | c :: cs, prev => prev < c && c < len && okc cs c
+    if okc cs 0 then some cs else none
+
+def deepObj : List Byte := "{\"jsonrpc\":\"2.0\",\"method\":\"m\"}".toUTF8.toList
+
+def frameFor (k : Kind) (text : List Byte) : List Byte :=
+  match k with
+  | .H m => encodeHeader m text
+  | _ => text
+
+def feedOp (f : FState) (s : Nat) (segs : List (List Byte)) (impl : List String) :
+    Except String (FState × List String) :=
+  match f.streams.getD s none with
+  | none => .error "model: stream not open"
+  | some (k, c) =>
+    match impl with
+    | "P" :: "feed" :: ts =>
+      if c.isNone then
+        if ts == ["dead"] then .ok (f, ["dead-conn"]) else .error s!"expected 'P feed dead', got {ts}"
+      else do
+        let (c', o', tags) ← acceptSegs k c segs ts f.oracle []
+        pure ({ f with streams := f.streams.set s (some (k, c')), oracle := o' }, tags)
+    | _ => .error s!"expected a 'P feed' line, got {impl}"
+
+def int32? (w : String) : Option Int := do
+  let v ← intOfString? w
+  if -2147483648 ≤ v ∧ v < 2147483648 then some v else none
+
+/-- one framing op against the implementation's line (as words). `none` = ill-typed op. -/
+def framingOp (f : FState) (ws : List String) (impl : List String) :
+    Option (Except String (FState × List String)) :=
+  let opened (s : Nat) : Option Unit := if (f.streams.getD s none).isSome then some () else none
+  match ws with
+  | ["open", s, "H", m] => do
+      let s ← slot? s; let m ← m.toNat?
+      if m < 65536 then
+        some (if impl == ["P", "open"] then .ok ({ f with streams := f.streams.set s (some (.H (UInt16.ofNat m), some [])) }, ["open"])
+              else .error s!"expected 'P open' got {impl}")
+      else none
+  | ["open", s, "R"] => do
+      let s ← slot? s
+      some (if impl == ["P", "open"] then .ok ({ f with streams := f.streams.set s (some (.R, some [])) }, ["open"])
+            else .error s!"expected 'P open' got {impl}")
+  | ["open", s, "P"] => do
+      let s ← slot? s
+      some (if impl == ["P", "open"] then .ok ({ f with streams := f.streams.set s (some (.P, some [])) }, ["open"])
+            else .error s!"expected 'P open' got {impl}")
+  | "sendq" :: s :: id :: m :: p :: [] => do
+      let s ← slot? s; let _ ← int32? id; let _ ← bytesOfHex m; let _ ← bytesOfHex p; opened s
+      some (sendOp f s impl)
+  | "sendr" :: s :: id :: p :: [] => do
+      let s ← slot? s; let _ ← int32? id; let _ ← bytesOfHex p; opened s
+      some (sendOp f s impl)
+  | "sende" :: s :: id :: code :: [] => do
+      let s ← slot? s; let _ ← int32? id; let _ ← int32? code; opened s
+      some (sendOp f s impl)
+  | ["feed", s, d] => do
+      let s ← slot? s; let d ← bytesOfHex d; opened s
+      some (feedOp f s [d] impl)
+  | ["feedsent", s, k, cuts] => do
+      let s ← slot? s; opened s
+      let ks ← (k.splitOn "+").mapM (fun t => t.toNat?)
+      let parts ← ks.mapM (fun i => f.sent[i]?)
+      let bytes := parts.flatten
+      let cs ← parseCuts cuts bytes.length
+      some (feedOp f s (splitAt bytes cs) impl)
+  | ["deep", s, n] => do
+      let s ← slot? s; let n ← n.toNat?; opened s
+      if n > 2000000 then none else
+      match f.streams.getD s none with
+      | none => some (.error "model: stream not open")
+      | some (k, _) =>
+        let text := List.replicate n cLsq ++ deepObj ++ List.replicate n cRsq
+        let f' := { f with oracle := { f.oracle with valid := text :: f.oracle.valid } }
+        some ((feedOp f' s [frameFor k text] impl).map (fun (g, t) => (g, "deep" :: t)))
+  | _ => none
+where
+  sendOp (f : FState) (s : Nat) (impl : List String) : Except String (FState × List String) :=
+    match f.streams.getD s none with
+    | none => .error "model: stream not open"
+    | some (k, _) =>
+      match impl with
+      | ["P", "send", hx, rt] =>
+        match bytesOfHex hx with
+        | none => .error "bad hex in send line"
+        | some bytes =>
+          let text := match k with | .H _ => bytes.drop 6 | _ => bytes
+          if rt != "rt=1" then .error s!"the encoder's output did not decode to an equal JSON value ({rt})"
+          else if frameFor k text != bytes then .error "encoder output is not magic+length+text"
+          else if text.length < 2 then .error "encoder wrote a text shorter than 2 bytes"
+          else if k.dec bytes != .frame text bytes.length then
+            .error "model does not delimit the encoder's output as exactly one frame"
+          else .ok ({ f with sent := f.sent ++ [bytes],
+                             oracle := { f.oracle with valid := text :: f.oracle.valid } }, ["send"])
+      | _ => .error s!"expected 'P send <hex> rt=1' got {impl}"
+
+def showEvs (es : List REv) : String :=
+  if es.isEmpty then "-" else " ".intercalate (es.map fun
+    | .sent id => s!"s{id}"
+    | .fired t c => s!"f{t}:{c}")
+
+def rpcTags (r : Rpc) (op : Op) (evs : List REv) : List String :=
+  let fired := evs.any (fun | .fired .. => true | _ => false)
+  let chained := evs.any (fun | .fired .. => false | _ => true) && fired
+  (match op with
+   | .request c => [if c then "req-chain" else "req"]
+   | .notify => ["notify"]
+   | .response id _ => [if fired then "rsp-hit" else if (0 < id ∧ id ≤ (r.idAlloc : Int)) then "rsp-late-or-dup" else "rsp-unknown"]
+   | .tick => []) ++ (if chained then ["chained-request"] else [])
+
+def rpcOp (k : Kind) (r : Rpc) (ws : List String) (impl : String) :
+    Option (Except String (CaseSt × List String)) :=
+  let finish (r' : Rpc) (evs : List REv) (tags : List String) : Except String (CaseSt × List String) :=
+    let want := "P ev " ++ showEvs evs
+    if impl.trimAscii.toString = want then .ok (.rpc k r', tags) else .error s!"expected '{want}' got '{impl.trimAscii.toString}'"
+  match ws with
+  | ["req", c] =>
+      if c == "0" || c == "1" then
+        let (r', evs) := step r (.request (c == "1"))
+        some (finish r' evs (rpcTags r (.request (c == "1")) evs))
+      else none
+  | ["note"] => let (r', evs) := step r .notify; some (finish r' evs ["notify"])
+  | ["rsp", id, code] => do
+      let id ← int32? id; let code ← int32? code
+      let (r', evs) := step r (.response id code)
+      some (finish r' evs (rpcTags r (.response id code) evs))
+  | ["adv", ms] => do
+      let ms ← ms.toNat?
+      if ms > 100000 then none else
+      let (r', evs) := r.advance ms
+      let timeouts := evs.filter (fun | .fired _ c => c == kRequestTimeout | _ => false)
+      let tags := (if timeouts.isEmpty then (if r.timerOn then ["adv-no-timeout"] else ["adv-timer-off"]) else ["timeout-fired"]) ++
+                  (if !r.pending.isEmpty && r'.pending.isEmpty then ["all-completed"] else []) ++
+                  (if r.timerOn && !r'.timerOn then ["timer-disabled"] else []) ++
+                  (if evs.any (fun | .sent _ => true | _ => false) then ["chained-request"] else [])
+      some (finish r' evs tags)
+  | _ => none
+
+structure DSt where
+  ops  : List String := []     -- reversed
+  impl : List String := []     -- reversed
+
+def processCase (ops impl : List String) : List String :=
+  let rec go (st : CaseSt) (ops impl : List String) (fuel : Nat) : List String :=
+    match fuel, ops with
+    | 0, _ => []
+    | _, [] => (match impl with
+        | [] => []
+        | l :: _ => if l.startsWith "CRASH" then ["reject implementation crashed: " ++ l] else ["reject extra implementation output: " ++ l])
+    | fuel + 1, op :: ops' =>
+      match impl with
+      | [] => ["reject missing implementation output for op: " ++ op]
+      | il :: impl' =>
+        if il.startsWith "CRASH" then ["reject implementation crashed: " ++ il] else
+        let ws := words op
+        let iw := words il
+        let res : Option (Except String (CaseSt × List String)) :=
+          match st, ws with
+          | .fresh, ["rpc", k, n] =>
+              let mk (kd : Kind) (n : Nat) : Option (Except String (CaseSt × List String)) :=
+                if 1 ≤ n ∧ n ≤ 8 then
+                  some (if iw == ["P", "rpc"] then Except.ok (CaseSt.rpc kd (Rpc.init n), ["rpc-open"])
+                        else Except.error s!"expected 'P rpc' got {il}")
+                else none
+              (match k, n.toNat? with
+               | "H", some n => mk (.H 0x3e5a) n
+               | "R", some n => mk .R n
+               | "P", some n => mk .P n
+               | _, _ => none)
+          | .fresh, _ => (framingOp {} ws iw).map (·.map fun (f, t) => (.framing f, t))
+          | .framing f, _ => (framingOp f ws iw).map (·.map fun (f, t) => (.framing f, t))
+          | .rpc k r, _ => rpcOp k r ws il
+        match res with
+        | none =>
+            if iw == ["bad-op"] then "ok bad-op" :: go st ops' impl' fuel
+            else ["reject ill-typed op '" ++ op ++ "' answered with: " ++ il]
+        | some (.error e) => ["reject " ++ e ++ " | op: " ++ (op.take 120).toString]
+        | some (.ok (st', tags)) =>
+            ("B " ++ " ".intercalate tags) :: "ok" :: go st' ops' impl' fuel
+  go .fresh ops impl (ops.length + 1)
+
+def stepLine (s : DSt) (line : String) : DSt × List String :=
+  let l := line.trimAscii.toString
+  if l.isEmpty then (s, [])
+  else if l.startsWith "case " then ({}, [l])
+  else if l.startsWith "T " then ({ s with impl := (l.drop 2).toString :: s.impl }, [])
+  else if l == "T" then ({ s with impl := "" :: s.impl }, [])
+  else if l == "end" then ({}, processCase s.ops.reverse s.impl.reverse)
+  else ({ s with ops := l :: s.ops }, [])
+
+def main : IO Unit := runDriver ({} : DSt) stepLine
